@@ -48,12 +48,18 @@ YNet:
 """
 
 MODELS = ['A', 'B', 'C', 'D1', 'D3', 'F', 'G', 'Y']
+YMODELS = ['YA', 'YB']
 KINDS = ['grf0', 'grf1', 'run', 'runk', 'jac', 'upd', 'clr', 'again', 'fail', 'opapply']
 GLOBAL_OPS = [['cfc', None]]
 # operations that exist for selected models only: recompilation of a stored template object with vectorize=False
 # (again0), compilation with a decorator and two different decorator arguments (dec1/dec2; A and C generate the same
 # source text)
-EXTRA_OPS = [['again0', 'G'], ['again0', 'D3'], ['again0', 'A'], ['dec1', 'A'], ['dec2', 'A'], ['dec2', 'C']]
+EXTRA_OPS = [['again0', 'G'], ['again0', 'D3'], ['again0', 'A'], ['dec1', 'A'], ['dec2', 'A'], ['dec2', 'C'],
+             # a run on a copy (in_place=False), keeping the template object; models written to ONE yaml file name and
+             # loaded from there (same template names, other equations and values)
+             ['runc', 'A'], ['runc', 'G'], ['runc', 'D3'], ['ydump', 'YA'], ['ydump', 'YB'],
+             # the same, but the file is written by the user (not through to_yaml) after clear_frontend_caches()
+             ['yfile', 'YA'], ['yfile', 'YB']]
 
 
 def _scaled(func, factor=1.0):
@@ -107,6 +113,10 @@ def build(model, store):
                               variables={'v': 'output(0.1)', 'u': 'input(0.0)', 'w': 'input(0.0)'})
         return CircuitTemplate(model, nodes={'s': NodeTemplate('s', operators=[so]), 'g': NodeTemplate('g', operators=[to])},
                                edges=[('s/so/x', 'g/to/u', None, {'weight': 2.0})])
+    if model in ('YA', 'YB'):
+        eq, x0, kk = ("d/dt * x = -k*x", 1.0, 1.0) if model == 'YA' else ("d/dt * x = -k*x*x + 0.3", 0.5, 2.0)
+        op = OperatorTemplate('yo', equations=[eq], variables={'x': f'output({x0})', 'k': kk})
+        return CircuitTemplate('ynet', nodes={'n': NodeTemplate('yn', operators=[op])})
     if model == 'Y':
         if not os.path.exists('ymodel.yaml'):
             with open('ymodel.yaml', 'w') as f:
@@ -121,8 +131,8 @@ def inputs_of(model):
     return None
 
 
-OUT = {'G': 'g2/to/v', 'A': 'n/op/x', 'B': 'n/op/x', 'C': 'n/opc/x', 'D1': 'all/opd/x', 'D3': 'all/opd/x', 'F': 'g/to/v', 'Y': 'n/yop2/x'}
-UPD = {'G': 's/so/k', 'A': 'n/op/k', 'B': 'n/op/k', 'C': 'n/opc/k', 'D1': 'a/opd/k', 'D3': 'b/opd/k', 'F': 's/so/k', 'Y': 'n/yop2/k'}
+OUT = {'YA': 'n/yo/x', 'YB': 'n/yo/x', 'G': 'g2/to/v', 'A': 'n/op/x', 'B': 'n/op/x', 'C': 'n/opc/x', 'D1': 'all/opd/x', 'D3': 'all/opd/x', 'F': 'g/to/v', 'Y': 'n/yop2/x'}
+UPD = {'YA': 'n/yo/k', 'YB': 'n/yo/k', 'G': 's/so/k', 'A': 'n/op/k', 'B': 'n/op/k', 'C': 'n/opc/k', 'D1': 'a/opd/k', 'D3': 'b/opd/k', 'F': 's/so/k', 'Y': 'n/yop2/k'}
 
 
 def norm_name(n):
@@ -184,7 +194,7 @@ def do_op(op, store, live):
                                     inputs={k: v.copy() for k, v in inp.items()} if inp else None, **kw)
         o = obs_func(f, a, n, s)
         live.append((f, [x.copy() if hasattr(x, 'copy') else x for x in a], n, s, o))
-        return {k: o[k] for k in ('fabs', 'names', 'svm', 'args')}
+        return {k: o[k] for k in ('fabs', 'names', 'svm', 'args', 'y0')}
     if kind == 'opapply':
         # direct application of an operator template that has the NAME of the model's operator but other equations
         from pyrates import OperatorTemplate
@@ -193,6 +203,30 @@ def do_op(op, store, live):
         return {'kind': 'opapply'}
     circ = build(model, store)
     inp = inputs_of(model)
+    if kind in ('ydump', 'yfile'):
+        from pyrates import CircuitTemplate
+        if kind == 'ydump':
+            circ.to_yaml('shared_dump.yaml')
+            loaded = CircuitTemplate.from_yaml('shared_dump/ynet')
+        else:
+            from pyrates.utility import clear_frontend_caches
+            clear_frontend_caches()
+            eq, x0, kk = ("d/dt * x = -k*x", 1.0, 1.0) if model == 'YA' else ("d/dt * x = -k*x*x + 0.3", 0.5, 2.0)
+            with open('shared_ext.yaml', 'w') as fh:
+                fh.write('%YAML 1.2\n---\n\nyo:\n  base: OperatorTemplate\n  equations: "' + eq + '"\n  variables:\n'
+                         f'    x: output({x0})\n    k: {kk}\n\nyn:\n  base: NodeTemplate\n  operators:\n    - yo\n\n'
+                         'ynet:\n  base: CircuitTemplate\n  nodes:\n    n: yn\n  edges: []\n')
+            loaded = CircuitTemplate.from_yaml('shared_ext/ynet')
+        f, a, n, s = loaded.get_run_func('vf', vectorize=True, clear=False, in_place=False, **kw)
+        o = obs_func(f, a, n, s)
+        live.append((f, [x.copy() if hasattr(x, 'copy') else x for x in a], n, s, o))
+        return o
+    if kind == 'runc':
+        df = circ.run(simulation_time=6 * 0.125, sampling_step_size=0.125, outputs={'o': OUT[model]}, solver='euler',
+                      vectorize=True, clear=True, in_place=False, **kw)
+        store[('tpl', model)] = circ
+        return {'cols': [str(c) for c in df.columns], 'index': [round(float(t), 10) for t in df.index],
+                'values': [[round(float(v), 10) for v in row] for row in np.asarray(df.values, dtype=float)]}
     if kind == 'fail':
         # a compilation that fails half-way (edge to a node that does not exist) and is caught by the caller
         bad = circ.update_template(edges=[(OUT[model].replace('all', list(circ.nodes)[0]) if circ.nodes else OUT[model],
@@ -287,7 +321,7 @@ def fresh_interpreter_solo(ops):
     return out
 
 
-STORING = ('grf0', 'grf1', 'upd', 'jac', 'runk', 'dec1', 'dec2')
+STORING = ('grf0', 'grf1', 'upd', 'jac', 'runk', 'dec1', 'dec2', 'runc')
 
 
 def features(history, i):
@@ -306,6 +340,10 @@ def features(history, i):
         f.add('same_model_before')
     if model == 'Y' and 'Y' in pm:
         f.add('yaml_template_loaded_before')
+    if kind == 'ydump' and any(k == 'ydump' and m_ != model for k, m_ in prev):
+        last_dump = max(j for j, (k, m_) in enumerate(prev) if k == 'ydump')
+        if not any(k == 'cfc' for k, _ in prev[last_dump:]):
+            f.add('yaml_file_overwritten_without_cache_clear')
     if any(k in ('grf0', 'grf1', 'jac', 'runk', 'upd', 'dec1', 'dec2') for k, _ in prev):
         f.add('uncleared_compile_before')
     if kind in ('again', 'again0'):
@@ -366,7 +404,10 @@ def main(ev, tier, seed):
                         continue
                     ref = solo[json.dumps(['grf0' if h[i][0] == 'again0' else 'upd' if last[-1] == 'upd' else 'grf1',
                                            h[i][1]])]
-                    exp = {k: ref[k] for k in ('fabs', 'names', 'svm', 'args')} if 'fabs' in ref else ref
+                    # (after run(clear=False) the template deliberately continues from the final state of that run)
+                    keys = ('fabs', 'names', 'svm', 'args') + (() if last[-1] == 'runk' else ('y0',))
+                    exp = {k: ref[k] for k in keys} if 'fabs' in ref else ref
+                    o = {k: o[k] for k in keys} if 'fabs' in o else o
                 if o != exp and i == len(h) - 1:     # earlier steps were reported at their own level
                     kind = 'raises' if 'raises' in o else 'observation_differs'
                     v = {'kind': kind, 'step': i, 'op': h[i], 'got': o, 'solo': exp,
@@ -397,7 +438,7 @@ def main(ev, tier, seed):
     if depth < 3:
         # depth-3 slice over a reduced alphabet (A-B-A patterns with uncleared compilations)
         small = [['grf0', 'A'], ['grf0', 'B'], ['grf1', 'C'], ['runk', 'A'], ['again', 'G'], ['grf1', 'G'], ['again0', 'G'],
-                 ['dec1', 'A'], ['dec2', 'C']]
+                 ['dec1', 'A'], ['dec2', 'C'], ['ydump', 'YA'], ['ydump', 'YB'], ['cfc', None]]
         import itertools
         cases = [{'history': [list(o) for o in hh]} for hh in itertools.product(small, repeat=3)]
         for case, res in pool.run('C13', cases, chunksize=4):
